@@ -81,11 +81,15 @@ impl Context {
     }
 
     pub fn push_error_handler_context(&mut self) {
-        // drop all ArgumentState until we hit the first NormalState
+        self.drop_argument_states();
+        self.do_push_existing(0, false);
+    }
+
+    /// Drops all states that are collecting arguments until we hit the first normal state.
+    pub fn drop_argument_states(&mut self) {
         while self.states.last().unwrap().arguments.is_some() {
             self.do_pop();
         }
-        self.do_push_existing(0, false);
     }
 
     pub fn global_variables(&self) -> &Variables {
